@@ -179,6 +179,8 @@ def text_cases(draw):
     if draw(st.integers(0, 3)) == 0:
         kw['error'] = draw(st.sampled_from(['L', 'M', 'Q']))
     kw['mask'] = draw(st.integers(0, 3))
+    if draw(st.integers(0, 3)) == 0:
+        kw['encoding'] = draw(st.sampled_from(['utf-8', 'shift_jis', 'gb2312', 'iso-8859-15', 'utf-16', 'big5', 'gbk', 'ascii']))
     return {'fn': fn, 'content': enc_content(content), 'kw': kw}
 
 
